@@ -341,7 +341,7 @@ def gen_contest(rng, cid, audit_type, kinds=None, shared_names=False):
     cs = {
         "choice_function": cf, "n_winners": k, "candidates": cands, "winner": cands[:k],
         "share_to_win": None, "risk_limit": rng.pick([0.01, 0.05, 0.1, 0.2, 0.5]),
-        "cards": None, "audit_type": audit_type, "g": 0.1, "assertion_json": None,
+        "cards": None, "audit_type": audit_type, "g": rng.pick([0.1, 0.1, 0.05, 0.2, 0.01]), "assertion_json": None,
         # super-majority: build the assertion by calling the constructor directly without the share argument, as the
         # library's own test does (the share is an attribute of the contest)
         "sm_direct": bool(rng.random() < 0.5),
@@ -377,7 +377,10 @@ def mk_audit(ns, world):
 
 def mk_contests(ns, world, with_assertions=True):
     d = {}
-    for cid, cs in world["contests"].items():
+    order = [c for c in world.get("contest_order", []) if c in world["contests"]]
+    order += [c for c in world["contests"] if c not in order]
+    for cid in order:  # the order in which the user listed the contests is part of the case
+        cs = world["contests"][cid]
         e = {
             "name": f"contest {cid}",
             "risk_limit": cs["risk_limit"],
@@ -396,6 +399,8 @@ def mk_contests(ns, world, with_assertions=True):
             "g": cs.get("g", 0.1),
             "use_style": bool(world["use_style"]),
         }
+        if world.get("omit_empty_kwargs") and not e["test_kwargs"]:
+            del e["test_kwargs"]  # as users do: the contest then carries the class-level default dict
         d[cid] = e
     contests = ns.Contest.from_dict_of_dicts(d)
     for cid, cs in world["contests"].items():
@@ -424,4 +429,36 @@ def make_assertions(ns, world, contests):
                     test_kwargs=dict(con.test_kwargs), estim=con.estim, bet=con.bet)
             else:
                 ns.Assertion.make_all_assertions({cid: con})
+            if cs.get("random_order") is False:
+                # the documented option for data that are not in random order: the last entry, not the smallest, decides
+                for asn in con.assertions.values():
+                    asn.test.random_order = False
     return contests
+
+
+def spec_test(ns, cs, asn, u):
+    """the test an assertion of this contest is *configured* to use, built from the contest's specification alone
+    (not from the assertion's own test object, whose state is part of what is being checked)"""
+    ub = asn.assorter.upper_bound
+    kw = dict(cs.get("test_kwargs") or {})
+    if cs["choice_function"] in (PLURALITY, APPROVAL):
+        kw["g"] = cs.get("g", 0.1)
+    t = ns.NonnegMean(test=test_fn(ns, cs["test"]), estim=estim_fn(ns, cs.get("estim")), bet=bet_fn(ns, cs.get("bet")),
+                      u=ub, N=asn.test.N, t=1 / 2, random_order=True, **kw)
+    if cs.get("random_order") is False:
+        t.random_order = False
+    t.u = u
+    return t
+
+
+
+def clone_test(ns, t, u=None):
+    """a fresh NonnegMean with the same class-level functions and the same attributes as `t` (bound methods re-bound)"""
+    f = ns.NonnegMean.__new__(ns.NonnegMean)
+    f.__dict__.update({k: v for k, v in t.__dict__.items() if not k.startswith("_c06")})
+    f.test = (t.__dict__.get("_c06_inner") or t.test).__func__.__get__(f)
+    f.estim = t.estim.__func__.__get__(f)
+    f.bet = t.bet.__func__.__get__(f)
+    if u is not None:
+        f.u = u
+    return f
